@@ -107,7 +107,7 @@ PLANS = {
         correspondence='accept / reject / panic of template(), and for a rejection the line number, echoed line and caret column of every diagnostic, vs Ructe.template + Ructe.showErrors (message wording is not compared)',
         rule='token-alphabet strings (33 tokens) exhaustively to length 3 (quick) / 4 (thorough) behind a valid header, random token strings to length 9, mutations/splices of the example templates, structured templates, nesting 1..100 of every bracket / block kind closed and unclosed; non-trivial = distinct accepted syntax trees + rejected inputs with a diagnostic',
         assumptions=['stack exhaustion of the real recursion is runtime behaviour outside the model; nesting to 100 levels is exercised directly'],
-        level_text='no_panic / reject_has_diag / diag_in_range style theorems about the model parser and show_errors for all byte strings; tie: differential run on accept/reject/panic and diagnostic positions; oracle on the implementation: no panic, at least one diagnostic, line/column inside the input, echoed line is the source line.',
+        level_text='Proved for every byte string: template_no_panic, template_no_oom (fuel adequacy: termination with recursion depth linear in the input), template_fuel_mono, template_total (accepted whole or rejected with at least one diagnostic), reject_has_diag, template_err_in_range, template_accepts_whole, diag_in_range (line / column / echoed line well-formed). Tie: differential run on accept/reject/panic and diagnostic positions; oracle on the implementation: no panic, at least one diagnostic, positions inside the input, echoed line is the source line.',
         level_note='Trusted: Lean kernel; hand-written model of the nom-8 combinators and of ructe\'s grammar (validated by the tie). Termination (fuel adequacy, template_no_oom) and totality (template_total) are proved; stack depth of the real recursion is runtime behaviour.',
         design_ref='DESIGN.md §6 C11',
     ),
@@ -121,7 +121,7 @@ PLANS = {
         correspondence='syntax tree of the parse and the body of the generated code vs Ructe.template / Ructe.writeRust; every printed text literal is decoded by the Lean model of rustc\'s literal lexer and compared with the text node',
         rule='every ASCII code point except @{} alone / at the start / middle / end of a run, at 7 nesting positions; random text over quotes, backslashes, CR/LF, NUL, controls, multi-byte scalars, escape look-alikes, the three escapes, comments; structured templates with their documented tree; non-trivial = distinct accepted syntax trees',
         assumptions=['rustc lexes literals as the Rust Reference says (modelled by decodeStrLit / decodeByteStrLit; rustc itself is the judge in the e2e runs)'],
-        level_text='Literal round-trip theorems (decodeByteStrLit (escapeAscii t) = t, decodeStrLit (strDebug t) = t for every text and every uniEsc) + grammar lemmas; tie: differential run on tree and code, printed literals decoded by the model lexer.',
+        level_text='Proved for all inputs: textLit_ascii / textLit_nonascii (the printed literal lexes to exactly the text: every byte string resp. every valid UTF-8 text, every uniEsc), text_node_sound / comment_node_sound / node_consumes (what a text or comment node accounts for in the source), text_complete / escapes_complete, lower_text, render_text; with C11.template_accepts_whole every byte is accounted for. Tie: differential run on tree and code, printed literals decoded by the model lexer, rustc end-to-end rendering.',
         level_note='Trusted: Lean kernel; hand-written model of the parser/emitter and of Rust literal syntax.',
         design_ref='DESIGN.md §6 C01',
     ),
@@ -133,7 +133,7 @@ PLANS = {
         correspondence='consumed length / value / error list of expression, expr_inside_parens, quoted_string, rust_comment and the other named sub-parsers, and the syntax tree + body code of whole templates, vs the Lean transcription',
         rule='expressions from the documented grammar (prefix, atom, postfix chain, nested groups with plain runs / strings with every supported escape and embedded delimiters / block comments with embedded delimiters and quotes / division followed by delimiters and quotes) x 18 follower classes; near-miss token strings through 15 sub-parsers; non-trivial = distinct documented fragments',
         assumptions=['the fragment is opaque Rust: that it reaches rustc unmodified is the correspondence on the printed code; that it is evaluated once is the e2e run'],
-        level_text='Soundness theorems for the expression scanners (consumed prefix = value, suffix-respecting) + tie on extent for the documented grammar x follower classes; completeness (maximal munch) is validated by the generator oracle, not yet proved.',
+        level_text='Proved: expression_sound / exprInsideParens_sound / exprInParens_sound / quotedString_sound (the fragment is exactly the consumed prefix, valid UTF-8), expression_nonempty, expression_no_panic, emit_verbatim (printed once, unmodified). Completeness (the documented maximal form is taken in full) is proved for the parts in RucteProps/C05Complete.lean (when present) and otherwise validated by the generator oracle of the sub suite (documented grammar x 18 follower classes).',
         level_note='Trusted: Lean kernel; hand-written transcription of expression.rs (validated by the tie). K direction partial.',
         design_ref='DESIGN.md §6 C05',
     ),
@@ -156,7 +156,7 @@ PLANS = {
         correspondence='generated code, byte for byte, of canonical and perturbed prints of the same source tree vs the model\'s single answer',
         rule='every structured template printed canonically and twice with random admissible layouts (white space, LF, CRLF, tabs, 8 comment shapes incl. `**@` endings) at every slot kind; non-trivial = distinct accepted syntax trees',
         assumptions=[],
-        level_text='Metamorphic oracle on the implementation (canonical vs perturbed print give byte-identical code and the documented tree) + tie on the full text; spacelike soundness lemmas; the K theorem layout_irrelevant is not yet proved.',
+        level_text='Proved: at every layout slot of the grammar any admissible layout is consumed completely and is indistinguishable from any other (spacelike_complete, layout_irrelevant_at_slot, comment_complete, multispace0_complete, spacelike_total, spacelike_sound). The composition over all slots of a whole template is not proved; it is covered by the metamorphic oracle (canonical vs perturbed prints give byte-identical code and the documented tree) + tie on the full text.',
         level_note='Trusted: Lean kernel; hand-written model; generator\'s notion of admissible layout.',
         design_ref='DESIGN.md §6 C15',
     ),
@@ -180,7 +180,7 @@ PLANS = {
         correspondence='the whole OUT_DIR (paths and bytes) and stdout of compile_templates on a directory tree vs Ructe.build given the observed read_dir order',
         rule='random trees to depth 4 with identifier stems / directory names, mixed suffixes, same stem under different suffixes, non-template files, empty directories, broken templates among valid ones; oracle: exactly the expected files, each the code generated for that template alone, declaration chains present, broken templates warned and undeclared; non-trivial = distinct run outputs',
         assumptions=['file and directory names are UTF-8', 'that the declared functions are callable at every depth is rustc\'s name resolution (e2e)'],
-        level_text='Theorems about Ructe.handleEntries (tree_mirror style lemmas) + tie on the whole OUT_DIR + independent oracle on file set, contents, declarations and warnings.',
+        level_text='Proved by induction on the tree (no depth bound): tree_mirror_file, subdir_mod_declared, template_fn_declared, decl_only_with_file, broken_isolated, others_silent, valid_template_declared, broken_template_reported, subdir_declared, handleEntries_append; suffix_table over the list extracted from lib.rs on every run. Tie on the whole OUT_DIR + independent oracle on file set, contents, declarations and warnings.',
         level_note='Trusted: Lean kernel; hand-written model of lib.rs on an abstract file system.',
         design_ref='DESIGN.md §6 C10',
     ),
@@ -191,7 +191,7 @@ PLANS = {
         correspondence='OUT_DIR contents after a run and the set of physically rewritten files (mtime) vs Ructe.build / writeIfChanged on the observed prior OUT_DIR state',
         rule='edit histories (add / modify / delete / break templates, sub-directories, statics) of 1..4 edits with a run after each, output files replaced by garbage / non-UTF-8 / truncated at 0, mid, len-1 bytes; every run compared with a clean build into an empty directory; a directly repeated run must rewrite nothing; non-trivial = distinct run outputs',
         assumptions=['an output path is a file or absent', 'read_dir yields the same order for an unchanged directory'],
-        level_text='Theorems writeIfChanged_post, incremental_eq_clean, second_run_silent over Ructe.build for every prior file-system state; tie on contents and physical writes; oracle: byte-identical to a clean build, second run silent.',
+        level_text='Proved for every prior OUT_DIR state (any earlier builds, truncations, garbage): applyWrite_post, runLog_get, incremental_eq_clean, untouched_elsewhere, stdout_independent, second_run_silent, silent_when_up_to_date, writes_subset. Tie on contents and physical writes (mtime); oracle: byte-identical to a clean build, repeated run writes nothing.',
         level_note='Trusted: Lean kernel; hand-written model; a crash during the run under test is outside the model (the theorem quantifies over what earlier crashes left).',
         design_ref='DESIGN.md §6 C12',
     ),
@@ -205,7 +205,7 @@ PLANS = {
         correspondence='generated files byte for byte vs the model\'s single answer; the same tree in shuffled creation orders and other locations (tmpfs / ext4) must agree',
         rule='every tree scenario again with shuffled creation order (= read_dir order on tmpfs) at another location; the code for (name, template bytes) recorded across all scenarios; non-trivial = distinct run outputs + distinct accepted syntax trees',
         assumptions=[],
-        level_text='Theorems template_code_pure / decls_order_only / statics_order_pure over Ructe.build; tie on file bytes; oracle: twins agree, same template gives same code everywhere.',
+        level_text='Proved: template_code_pure, template_code_location_independent, build_deterministic, statics_line_pure, writes_perm / decls_concat / flat_decls_perm (the listing order only permutes), handleEntries_parametric. Tie on file bytes; oracle: twins (shuffled creation order, other location, tmpfs/ext4) agree, same template gives the same code in every scenario, histories equal clean builds.',
         level_note='Trusted: Lean kernel; hand-written model.',
         design_ref='DESIGN.md §6 C18',
     ),
@@ -216,7 +216,7 @@ PLANS = {
         correspondence='get_names() (identifier -> URL name) after a script vs Ructe.namesAfter (Lean MD5 + base64)',
         rule='contents: empty, 1 byte, all 256 byte values, MD5 block edges 55/56/57/63/64/65/119/120/128, random; 58 file names (several dots, trailing dot, leading dot, dashes, every punctuation byte, non-ASCII); add_file / add_files / add_file_data in shuffled orders from different directories; oracle: python hashlib.md5 + base64 recomputation; non-trivial = items checked',
         assumptions=['changing a byte changes the name unless MD5 collides on its first 48 bits'],
-        level_text='Theorems urlName_shape, b64url6_injective, urlName_pure (for every 16-byte hash function) + tie on names + independent hashlib oracle.',
+        level_text='Proved: urlName_shape, addHashed_publishes, publishedName_pure (same file name and bytes => same published name from any location / handler state / entry point), nameAndExt_shape, base64_6_injective, slug_shape, slug_eq_iff (names differ iff the first 48 hash bits differ, for every hash function), md5_length. Tie on get_names() + independent hashlib/base64 oracle incl. contents across I/O buffer boundaries.',
         level_note='Trusted: Lean kernel; hand-written model; md5 / base64 crates assumed to implement RFC 1321 / RFC 4648 (cross-checked against the Lean MD5 and hashlib on every run).',
         design_ref='DESIGN.md §6 C07',
     ),
@@ -228,7 +228,7 @@ PLANS = {
         correspondence='text of statics.rs vs Ructe.Statics.finish; every printed content / path / name literal decoded by the Lean model of rustc\'s lexer',
         rule='as C07, all five add_* entry points; oracle: decoded content literal = data, decoded include_bytes! path = file path, decoded name literal = published URL name; non-trivial = items checked',
         assumptions=['rustc lexes literals as the Rust Reference says (e2e compile is the judge)'],
-        level_text='Theorems byteString_roundtrip, name_roundtrip (every byte string / every UTF-8 name, every uniEsc) + tie on statics.rs + literal-decoding oracle.',
+        level_text='Proved: byteString_roundtrip (every byte string), strDebug_roundtrip (every valid UTF-8 string, every uniEsc) for the content, include_bytes! path and name literals. Tie on statics.rs text + literal-decoding oracle + the generated module compiled by rustc with contents and names read back.',
         level_note='Trusted: Lean kernel; hand-written model of Rust literal syntax and of add_static.',
         design_ref='DESIGN.md §6 C08',
     ),
@@ -241,7 +241,7 @@ PLANS = {
         correspondence='the STATICS line and names of statics.rs vs the model',
         rule='as C07 with name sets straddling - . _ digits upper/lower case and common prefixes, shuffled insertion orders (twins); oracle: STATICS lists each published name once in ascending byte order; non-trivial = items checked',
         assumptions=['Rust Ord for str and BTreeMap<String,_> are byte-lexicographic; binary_search_by_key finds an element iff present in a sorted slice'],
-        level_text='Theorems btree_insert_sorted, statics_complete_sorted, get_exact + tie + oracle on STATICS order.',
+        level_text='Proved for whole histories of additions: statics_complete, statics_sorted_nodup, statics_order_independent, get_finds_exactly_added, plus btree_insert_sorted / btree_keys / btree_perm / get_sound / get_complete / get_exact / staticsLine_lists. Tie + oracle on STATICS order + rustc-compiled module probed with StaticFile::get on members and near misses.',
         level_note='Trusted: Lean kernel; hand-written model; std BTreeMap / binary_search contracts.',
         design_ref='DESIGN.md §6 C09',
     ),
@@ -254,7 +254,7 @@ PLANS = {
         correspondence='identifiers (keys of get_names(), item names) vs Ructe.mangle',
         rule='as C07; oracle: identifier = every non-alphanumeric char replaced by _, n before a leading digit, legal Rust identifier; non-trivial = items checked',
         assumptions=['char::is_alphanumeric on non-ASCII scalars is a parameter of the model'],
-        level_text='Theorems mangle_ascii, mangle_is_ident, getNames_maps + tie + oracle.',
+        level_text='Proved: mangle_ascii (the stated rule), mangle_is_ident / mangle_is_ident_url (legal identifier), mangle_not_keyword, getNames_maps / getNames_keeps / getNames_maps_all (whole histories). Tie + python re-derivation oracle + every item named from rustc-compiled code.',
         level_note='Trusted: Lean kernel; hand-written model.',
         design_ref='DESIGN.md §6 C16',
     ),
@@ -279,7 +279,7 @@ PLANS = {
         correspondence='what static_name("f") evaluates to inside add_sass_file (recovered from the published name of the compiled CSS) or the build error, vs Ructe.staticName on get_names() before the call',
         rule='sets of 1..6 previously added files from 30 names (dashes, dots, underscores, leading digits, spaces, every punctuation byte rsass accepts in a string, non-ASCII letters), added through add_file and add_file_data; one scss per reference; references to every member, to non-members and to a name never used; non-trivial = distinct queried names',
         assumptions=['rsass calls the builtin with the literal argument and fails the build on CallError (opaque)', 'the compiled CSS of `a{b:static_name("f")}` is `a{b:"<url>"}` (optionally behind a BOM / @charset)'],
-        level_text='Theorems static_name_total (lookup and insertion mangle alike: every added file is found) and static_name_never_wrong (a hit has the identifier of the query) over the model; tie + oracle through add_sass_file with the real rsass.',
+        level_text='Proved: static_name_total, static_name_stable, static_name_never_wrong, static_name_missing, sass_css_added (the CSS is published as <stem>-<hash of the css>.css for whatever rsass produced). Tie + oracle through add_sass_file with the real rsass (members added through add_file, add_file_data and add_file_as).',
         level_note='Trusted: Lean kernel; hand-written model; rsass is opaque. Known finding: a non-member whose identifier equals a member\'s resolves to that member.',
         design_ref='DESIGN.md §6 C20',
     ),
@@ -291,7 +291,7 @@ PLANS = {
         correspondence='bytes written by the rustc-compiled generated functions vs Ructe.renderL (specification semantics under the mini-Rust Sem) of the model\'s parse; syntax tree and body code of structured templates vs the model',
         rule='typed template programs: 1..5 templates per program in up to 3 module levels, acyclic calls with 0..3 Content blocks (empty / comment-only / nested directives and calls), if / else-if chains / if-let / for over slices, tuples (& patterns), struct destructuring, ranges, enumerate / match with 2..3 arms, every relational operator, negation, &&, ||; 3 argument sets per program; every rendering re-run under fault sinks (failure at every byte offset for renderings up to 48 bytes, sampled beyond; chunk sizes 1 / 3 / 7 / unlimited; Interrupted every 2nd / 5th call); non-trivial = distinct renderings + distinct accepted syntax trees',
         assumptions=['user fragments are pure and infallible', 'the mini-Rust evaluator (RucteModel/MiniRust.lean) agrees with rustc on the generated fragment language (validated by this run)'],
-        level_text='Theorems exec_spec (emitted statements against every sink = specification rendering), render unfolding lemmas for if / else-if / for / match, else-if flattening; tie: rustc-compiled code vs the Lean rendering on generated typed programs; structural oracle (documented tree) on the parser.',
+        level_text='Proved for every Sem (meaning of user fragments), program, fuel, environment and sink: exec_realises (the emitted statements realise the specification rendering), render_if_taken / render_if_not_taken / render_else_block / render_else_if / else_if_flattening / render_for / render_iter_cons / render_match / render_seq / render_fuel_mono. The parser side (which source becomes which tree) is soundness-proved per node kind (C01, C05) and otherwise validated by the documented-tree oracle. Tie: rustc-compiled code vs the Lean rendering on generated typed programs.',
         level_note='Trusted: Lean kernel; hand-written model; print : IR -> text is validated by rustc runs, not proved; rustc.',
         design_ref='DESIGN.md §6 C03',
     ),
@@ -303,7 +303,7 @@ PLANS = {
         correspondence='as C03, on programs with calls and Content blocks across modules (templates printed with random layouts)',
         rule='typed template programs: 1..5 templates per program in up to 3 module levels, acyclic calls with 0..3 Content blocks (empty / comment-only / nested directives and calls), if / else-if chains / if-let / for over slices, tuples (& patterns), struct destructuring, ranges, enumerate / match with 2..3 arms, every relational operator, negation, &&, ||; 3 argument sets per program; every rendering re-run under fault sinks (failure at every byte offset for renderings up to 48 bytes, sampled beyond; chunk sizes 1 / 3 / 7 / unlimited; Interrupted every 2nd / 5th call); non-trivial = distinct renderings',
         assumptions=['user fragments are pure and infallible', 'module name resolution is rustc\'s (the generated crate compiles or the check reports it)'],
-        level_text='Theorems render_call / closure semantics in Ructe.renderS (block rendered with the caller\'s variables at the callee\'s position) + exec_spec; tie: rustc-compiled call graphs across sub-directory modules vs the Lean rendering.',
+        level_text='Proved for every Sem: render_call, block_captures_caller (a block is a closure over the caller\'s variables), render_content_param, render_noop_param, lower_block, compose_chain (forwarding through an intermediate template), bindParams_get + exec_realises. Module resolution across sub-directories is rustc\'s (the generated crate is compiled on every run). Tie: rustc-compiled call graphs with Content blocks vs the Lean rendering.',
         level_note='Trusted: Lean kernel; hand-written model; rustc.',
         design_ref='DESIGN.md §6 C04',
     ),
